@@ -1577,6 +1577,8 @@ class Interp:
         if isinstance(fv, OpaqueV):
             st.imprecise.append(f"call of opaque {fv.tag}")
             return self.val(st, OpaqueV(fv.tag + "()"))
+        if isinstance(fv, ObjV) and fv.cls.lookup("__call__") is not None:
+            return self.call_function(fv.cls.lookup("__call__"), [fv] + list(args), kwargs, st, node)   # callable object
         self.unsupported(node, f"call of {fv!r}")
 
     def construct(self, cls: ClassInfo, args, kwargs, st, node) -> list[Out]:
@@ -1854,6 +1856,13 @@ class Interp:
                     s1.add(ge(q * c, 0))
                 res.extend(self.val(s1, TupleV([IntV(q), IntV(r)])))
                 return res
+            if short == "bytearray" and len(args) == 1 and isinstance(args[0], SeqV) and args[0].kind == "bytes":
+                return self.val(st, st.new_buf(args[0].length, list(args[0].pieces)))    # a mutable copy of the bytes
+            if short in ("bytearray", "bytes") and len(args) == 1 and isinstance(args[0], BufV):
+                h = st.heap[args[0].oid]
+                if short == "bytes":
+                    return self.val(st, SeqV("bytes", h["length"], list(h["pieces"])))
+                return self.val(st, st.new_buf(h["length"], list(h["pieces"])))
             if short in ("bytearray", "bytes") and len(args) == 1 and self.as_int(args[0]) is not None:
                 n = self.as_int(args[0])
                 if short == "bytearray":
@@ -1873,8 +1882,11 @@ class Interp:
                          "reversed", "iter", "next"):
                 return self.builtin_misc(short, args, kwargs, st, node)
             self.unsupported(node, f"builtin {short}")
-        if name.startswith("struct.Struct:") and short.startswith("Struct:") is False:
-            pass
+        if name in ("struct.Struct", "Struct") and len(args) == 1 and isinstance(args[0], SeqV) and \
+                isinstance(args[0].const, str):
+            return self.val(st, ExtV(f"struct.Struct:{args[0].const}"))       # a compiled struct format
+        if name in ("struct.pack",) and args and isinstance(args[0], SeqV) and isinstance(args[0].const, str):
+            return self.struct_pack(args[0].const, args[1:], st, node)
         if name.startswith("struct.Struct:") and name.endswith(".pack"):
             fmt = name[len("struct.Struct:"):-len(".pack")]
             return self.struct_pack(fmt, args, st, node)
